@@ -3258,6 +3258,12 @@ class SX:
             if s_no is not None:
                 res.append((s_no, args[1]) if len(args) == 2 else Outcome(s_no, 'raise', 'StopIteration', n.lineno))
             return res
+        if name == 'zip' and args and all(isinstance(a, Tv) and a.kind != 'generator' for a in args) and not kwargs and name not in m.functions:
+            n_ = min(len(a.items) for a in args)
+            return [(st, Tv([Tv([a.items[i] for a in args], 'tuple') for i in range(n_)], 'list'))]
+        if name == 'dict' and len(args) == 1 and isinstance(args[0], Tv) and not kwargs \
+                and all(isinstance(i, Tv) and len(i.items) == 2 and isinstance(i.items[0], Sv) for i in args[0].items):
+            return [(st, Dv({i.items[0].s: i.items[1] for i in args[0].items}))]
         if name == 'isclose' and len(args) == 2 and all(isinstance(a, (N, Dyn)) for a in args) and name not in m.functions \
                 and set(kwargs) <= {'rel_tol', 'abs_tol'} and all(isinstance(v, (N, Dyn)) for v in kwargs.values()):
             # math.isclose(a, b, rel_tol=1e-09, abs_tol=0.0)  ==  |a - b| <= max(rel_tol * max(|a|, |b|), abs_tol)
